@@ -35,7 +35,11 @@
    * SendCoinsUnrestricted / AddCoins / MintCoins with an empty amount still create the
      recipient account (ensureAccount); SendCoins returns before that. Modelled as is.
    * Storage-deposit lock / refund are SendCoinsUnrestricted at this level (vm keeper,
-     lockStorageDeposit / refundStorageDeposit); fee deduction is auth.DeductFees.        *)
+     lockStorageDeposit / refundStorageDeposit); fee deduction is auth.DeductFees.
+   * AnteTx is the REAL auth ante handler run on a signed transaction of 1..2 signers: its effect
+     on balances is the fee transfer and nothing else, whoever the signers are (the fee collector
+     may be a keyed account and sign at any position). The code today writes back a stale copy of a
+     collector that signs at position >= 2 (the fee is destroyed); the spec does not adopt that. *)
 EXTENDS Integers, Sequences, FiniteSets, TLC, Json
 
 CONSTANTS Addrs,      \* addresses; must contain "coll" (fee collector)
@@ -134,6 +138,12 @@ FeeRes(S, t, a, fee) ==
   LET amt == [d \in Denoms |-> IF d = "u" THEN fee ELSE 0] IN
   IF S.bal[a]["u"] < fee THEN Err("funds", S) ELSE SendUnrRes(S, t, a, "coll", amt)
 
+\* The auth ante handler (ante.go) at account level, for the signers sg (distinct, all with an account): it reads every
+\* signer's account, moves the fee from the FIRST signer to the collector, and then writes every signer's account object
+\* back (sequence bump, phase 3). The write-back must not change any balance - also when a signer is the account the fee
+\* deduction itself just changed: the payer (position 1) or the fee collector signing at ANY position.
+AnteRes(S, t, sg, fee) == FeeRes(S, t, sg[1], fee)
+
 \* MsgMultiSend: inputs / outputs are sequences of [a, amt]
 RECURSIVE IOIn(_, _, _, _, _)
 IOIn(S, t, rst, ins, k) ==
@@ -210,6 +220,9 @@ SendCoinsUnrestricted(f, t, amt) ==
 DeductFee(a, fee) ==
   /\ fee > 0 /\ acc[a].kind # "none"              \* the ante handler resolved the signer before
   /\ Apply([act |-> "DeductFee", from |-> a, fee |-> fee], FeeRes(Cur, now, a, fee))
+AnteTx(sg, fee) ==
+  /\ fee > 0 /\ \A i \in 1..Len(sg) : acc[sg[i]].kind # "none"
+  /\ Apply([act |-> "AnteTx", signers |-> sg, fee |-> fee], AnteRes(Cur, now, sg, fee))
 InputOutputCoins(ins, outs) ==
   Apply([act |-> "InputOutputCoins", ins |-> ins, outs |-> outs], IORes(Cur, now, restricted, ins, outs))
 MintCoins(a, amt) == ~IsZero(amt) /\ Apply([act |-> "MintCoins", to |-> a, amt |-> amt], MintRes(Cur, a, amt))
@@ -240,9 +253,12 @@ IOShapes ==
   {<< <<In(i1, Plus(x, y))>>, <<In(o1, x), In(o2, y)>> >> : i1 \in Addrs, o1 \in Addrs, o2 \in Addrs, x \in IOAmts, y \in IOAmts} \cup
   {<< <<In(i1, x), In(i2, y)>>, <<In(o1, Plus(x, y))>> >> : i1 \in Addrs, i2 \in Addrs, o1 \in Addrs, x \in IOAmts, y \in IOAmts}
 
+SignerSeqs == {<<x>> : x \in Addrs} \cup {<<p[1], p[2]>> : p \in {q \in Addrs \X Addrs : q[1] # q[2]}}
+
 Next ==
   \/ \E f \in Addrs, t \in Addrs, x \in AmtSet : SendCoins(f, t, x) \/ SendCoinsUnrestricted(f, t, x)
   \/ \E a \in Addrs, fee \in Amts : DeductFee(a, fee)
+  \/ \E sg \in SignerSeqs, fee \in Amts : AnteTx(sg, fee)
   \/ \E s \in IOShapes : InputOutputCoins(s[1], s[2])
   \/ \E a \in Addrs, x \in NonZero : MintCoins(a, x) \/ BurnCoins(a, x)
   \/ \E a \in Addrs, x \in AmtSet : AddCoins(a, x) \/ SubtractCoins(a, x) \/ SetCoins(a, x)
@@ -267,7 +283,7 @@ NumsUnique == /\ \A a \in Addrs : acc[a].kind # "none" => acc[a].num >= 0 /\ acc
 \* only explicit mint / burn (and the genesis re-seed) change the supply record
 OnlyMintBurnChangeSupply == [][supply' # supply => last'.act \in {"MintCoins", "BurnCoins", "RecomputeSupply"}]_<<vars, last>>
 \* every transfer leaves the sum of balances unchanged
-Transfers == {"SendCoins", "SendCoinsUnrestricted", "DeductFee", "InputOutputCoins"}
+Transfers == {"SendCoins", "SendCoinsUnrestricted", "DeductFee", "AnteTx", "InputOutputCoins"}
 TransferNeutral == [][last'.act \in Transfers => \A d \in Denoms : Held(bal', d) = Held(bal, d)]_<<vars, last>>
 \* mint / burn move the sum by exactly what they move the record
 MintBurnExact == [][last'.act \in {"MintCoins", "BurnCoins"} =>
